@@ -192,13 +192,14 @@ def exhaustive_two_senders():
     return out
 
 
-def gen_long_sequential(rng, n=8):
+def gen_long_sequential(rng, n=8, depths=None, msglen=4, cycles=None):
     """long SEQUENTIAL runs (no preemption at all): >= 300 claim/send/receive/release cycles on depths that do not divide
     256, in bursts of 1..depth messages, so that every 8-bit index / counter of the structure wraps several times"""
     out = []
-    depths = [3, 5, 6, 7] + rng.shuffle([9, 10, 11, 12, 13, 15, 17, 24, 31])[:max(0, n - 4)]
+    depths = depths or ([3, 5, 6, 7] + rng.shuffle([9, 10, 11, 12, 13, 15, 17, 24, 31])[:max(0, n - 4)])
+    cyc = cycles
     for d in depths[:n]:
-        cycles = rng.range(300, 420)
+        cycles = cyc or rng.range(300, 420)
         ns = rng.range(1, min(3, d))
         per = (cycles + ns - 1) // ns
         progs = [f's{per}'] * ns
@@ -210,7 +211,7 @@ def gen_long_sequential(rng, n=8):
                 toks += [f'{i}!' for i in range(ns)]
             toks += [f'{r}!'] * (burst * ns)
             done += burst
-        out.append(scen(d, 4, per * ns + 4, 0, progs, toks))
+        out.append(scen(d, msglen, per * ns + 4, 0, progs, toks))
     return out
 
 
@@ -495,7 +496,9 @@ def run(ctx):
     rng = vlib.Rng(ctx.seed)
     for unit, err in skeleton.regen_skeleton(['messageq']):
         ctx.broken.append(f'tie S: atomic-operation skeleton of {unit} could not be extracted from the source: {err}')
-    ctx.prove(['Librfn.Props.C04'], REQUIRED)
+    sys.path.insert(0, os.path.dirname(os.path.abspath(__file__)))
+    import tie_common
+    tie_common.prove(ctx, ['MessageqSeq'], ['Librfn.Props.C04'], REQUIRED, 'Librfn.Props.C10Tie', 'Librfn.C10.Tie')
     exe = harness(ctx)
     if not ctx.build_model():
         return
@@ -506,6 +509,8 @@ def run(ctx):
               ('free-preemption', [gen_free(rng) for _ in range(120 if quick else 5000)]),
               ('interrupt-nesting', [gen_isr(rng) for _ in range(80 if quick else 3000)])]
     groups.append(('long-sequential', gen_long_sequential(rng, 2 if quick else 10)))
+    # storage of 64 KiB and more (offsets that no longer fit 16 bits), every slot used twice
+    groups.append(('large-geometry-sequential', gen_long_sequential(rng, 2, depths=[32, rng.choice([17, 24, 31])], msglen=4096, cycles=70)))
     groups.append(('deep-synchronous-nesting', gen_nest(rng, 10 if quick else 400)))
     if not quick:
         l1, _ = sweep_level1(exe)
